@@ -16,6 +16,8 @@ R2.7  the cycle tracker's enter/exit calls are balanced on every path of _parse_
 R2.11 the resolver's by-name registry fallback is taken only when the schema's own type agrees with the registered schema's
 R2.12 a schema that declares properties is never rendered as a TypeAlias (the alias decision is false for every such input)
 R2.16 sibling inline property schemas get distinct invented names (the parent prefix is dropped only after looking at the sibling keys)   [= R19.10]
+R2.17 a name made up for an inline schema is tested against the declared schema names before it is used as registry key
+R2.18 the cycle tracker's exit removes the schema from the stack and completes it unconditionally (no false cycles -> no empty placeholders)  [= R8.5]
 R2.15 writer / reader agreement on registry keys: the key a raw name is registered under is recorded, and $ref resolution / build_schemas
       find a schema through that index (no second parse of a schema whose sanitised name differs from its declared name)
 R2.14 the sanitised key a schema is registered under is tested against the declared names (it never shadows another declared schema)
@@ -122,6 +124,13 @@ def run(repo: Repo, rep: Report, tier: str) -> None:
     from rules.c19 import rule_sibling_names_are_distinct
 
     rule_sibling_names_are_distinct(repo, rep, "R2.16")
+    rule_invented_names_avoid_declared(repo, rep, "R2.17")
+    # R2.18: leaving a schema always takes it off the tracker's stack and completes it, wherever it sits: a schema left "in progress" makes a
+    # later inline reference to it look like a cycle, and the finished schema is then replaced by the empty placeholder (the replacement
+    # itself is the known finding R2.1)                                                                                       [= R8.5]
+    from rules._reuse import reuse as _reuse218
+
+    _reuse218(repo, rep, "c08", {"R8.5": "R2.18"}, only=lambda subj: "terminal state" in subj or "stack removal" in subj)
     # ---------------------------------------------------------------- R2.2 name content
     ucd = repo.module("core.parsing.unified_cycle_detection")
     ucc = ucd.func("unified_cycle_check")
@@ -878,3 +887,76 @@ def _rule_2_14(ps, rep, rule: str) -> None:
                           f"the schema is registered under `{norm(derived[0])[:50]}` without checking that this key is not the name of another declared schema: with "
                           "`user_profile` declared before `UserProfile`, the first takes the key `UserProfile`, build_schemas then skips the second as already parsed, and both "
                           "names end up with the first schema's fields (the second declaration is lost; the other declaration order works)", ps.loc(r.ast))
+
+
+# ------------------------------------------------------------------------------------------------ R2.17 invented names stay clear of declared names
+def _tests_declared_names(node: ast.AST, var: str) -> bool:
+    """`while/if <var> in <ctx>.raw_spec_schemas` somewhere below node"""
+    for x in ast.walk(node):
+        if isinstance(x, (ast.While, ast.If)):
+            for c in ast.walk(x.test):
+                if isinstance(c, ast.Compare) and len(c.ops) == 1 and isinstance(c.ops[0], (ast.In, ast.NotIn)) and isinstance(c.left, ast.Name) and c.left.id == var \
+                        and isinstance(c.comparators[0], ast.Attribute) and c.comparators[0].attr == "raw_spec_schemas":
+                    return True
+    return False
+
+
+def rule_invented_names_avoid_declared(repo: Repo, rep, rule: str = "R2.17") -> None:
+    """An inline schema that becomes a schema of its own (inline object / enum property, inline array items) is parsed under a name the
+    parser makes up from its context.  `_parse_schema` treats that name like any other: if a *declared* schema has it, the two are one
+    registry entry - whichever is parsed first supplies the fields, the other one is lost or mistyped.  Every made-up name must therefore be
+    passed through a test against the declared names (`<ctx>.raw_spec_schemas`) before it is used."""
+    sp = repo.module("core.parsing.schema_parser")
+    helpers = {q for q, f in sp.functions.items() if "." not in q and f.params and _tests_declared_names(f.node, f.params[0])}
+    n = 0
+    for q in ("_parse_properties", "_parse_schema"):
+        fn = sp.functions.get(q)
+        if fn is None:
+            raise AnalysisError(f"{rule}: anchor vanished: schema_parser.{q}")
+        L = Locals(fn.node)
+        seen_vars = set()
+        for c in calls_in(fn.node):
+            if not (isinstance(c.func, ast.Name) and c.func.id == "_parse_schema" and c.args and isinstance(c.args[0], ast.Name)):
+                continue
+            var = c.args[0].id
+            if var in seen_vars or L.is_param(var):
+                continue
+            # the variables the name is selected from (`name = None if simple else contextual_name`)
+            cands, todo = set(), [var]
+            while todo:
+                v = todo.pop()
+                if v in cands:
+                    continue
+                cands.add(v)
+                for _, d, _ in L.defs.get(v, []):
+                    if isinstance(d, ast.IfExp):
+                        todo += [b.id for b in (d.body, d.orelse) if isinstance(b, ast.Name)]
+                    elif isinstance(d, ast.Name) and not L.is_param(d.id):
+                        todo.append(d.id)
+            made_up = []
+            for v in cands:
+                for _, d, _ in L.defs.get(v, []):
+                    if d is not None and any(isinstance(x, ast.JoinedStr) or (isinstance(x, ast.BinOp) and isinstance(x.op, ast.Add)) or (
+                            isinstance(x, ast.Call) and isinstance(x.func, ast.Attribute) and x.func.attr == "sanitize_class_name") for x in ast.walk(d)):
+                        made_up.append((v, d))
+            if not made_up:
+                continue
+            seen_vars.add(var)
+            n += 1
+            guarded = False
+            for v in cands:
+                for _, d, _ in L.defs.get(v, []):
+                    if d is not None and any(isinstance(x, ast.Call) and isinstance(x.func, ast.Name) and x.func.id in helpers for x in ast.walk(d)):
+                        guarded = True
+                if _tests_declared_names(fn.node, v):
+                    guarded = True
+            sub = f"{sp.relpath}:{q} name `{var}` made up for an inline schema"
+            if guarded:
+                rep.ok(rule, sub, "passed through a test against the declared schema names before it is used", fn.loc(c))
+            else:
+                rep.violation(rule, sub, f"{fn.fq}|invented-name-may-be-declared|{var}",
+                              f"`{norm(made_up[0][1])[:70]}` can be the name of a declared schema (`Pets` with inline items next to a declared `PetsItem`): the inline schema "
+                              "and the declared one share one registry entry - declared second, the declared schema loses its fields to the inline one; declared first, the "
+                              "inline position is typed with the declared schema", fn.loc(c))
+    rep.count(f"{rule}:made_up_names", n)
+    rep.require(n >= 3, f"{rule}: only {n} made-up schema names found in schema_parser (floor 3)")
